@@ -9,8 +9,8 @@
      * decoding then encoding a well-formed string returns it; every decoded value is a scalar value;
      * the ASCII case maps preserve length, are idempotent and are inverse on letters.
    Emit prints, per string: CStr(s), whether it is well-formed, its scalar values and UTF-16 form if it is, the
-   C-locale case maps if it is ASCII, and a partner string for the case-insensitive comparison (ASCII case of
-   every letter flipped) with the verdict where the specification determines it.                              *)
+   C-locale case maps if it is ASCII, and two partner strings for the case-insensitive comparison (ASCII case of
+   every letter flipped: equal on ASCII; the string without its last byte: not equal on ASCII).                              *)
 EXTENDS Utf, TLC, Json
 CONSTANTS Alpha, MaxLen
 VARIABLES s
@@ -58,6 +58,7 @@ Rec(t) == LET d == Dec8Seq(t) IN
            ascii |-> IsAscii(t),
            up |-> IF IsAscii(t) THEN AsciiUpper(t) ELSE <<>>,
            lo |-> IF IsAscii(t) THEN AsciiLower(t) ELSE <<>>,
-           p |-> Flip(t)]
+           p |-> Flip(t),                                                    \* partners for equalsNocase: case flipped,
+           q |-> IF t = <<>> THEN <<>> ELSE SubSeq(t, 1, Len(t) - 1)]        \* and a proper prefix (never equal for ASCII)
 Emit == PrintT(ToJson(Rec(CStr(s'))))
 ===============================================================================
